@@ -19,6 +19,10 @@ Supported Python subset (anything else: the translator fails, which the checks t
 Types: ord (an abstract totally ordered type, comparisons go through the parameters lt/le), val (Edzed.Val),
 bool, rat, optrat (Optional number), optx (any Optional), str, vals (List Val).
 
+Further schemes in this file: TrEdit (DataEdit operations), TrAct (order of the actions of set_output / eval_block / abort /
+init_from_persistent_data), TrSend (ExtEvent.send); tools/py2lean_fsm.py translates the control flow of `FSM._ctx_event`
+into a program over named primitives (Gen/TranslatedFsm.lean, tie theorems in EdzedProps/C04.lean `TrTie`).
+
 Usage: py2lean.py <output file>
 """
 import ast
